@@ -208,6 +208,19 @@ func (u UnitBytes) MarshalJSON() ([]byte, error) {
 ''', '''	t.enter(node)
 ''', "a vertex can be started twice (TRV-1)"),
  ("C13", "limit-without-coordinator", "K", "graph/traversal.go", '''		eg.SetLimit(t.maxConcurrency + 1)''', '''		eg.SetLimit(t.maxConcurrency)''', "coordinator takes a visitor slot: deadlock at limit 1 (TRV-10)"),
+ ("C13", "stop-one-early", "K", "graph/traversal.go", """				if expect == 0 {
+					return nil
+				}
+""", """				if expect <= 1 {
+					return nil
+				}
+""", "coordinator stops with one vertex outstanding (TRV-8)"),
+ ("C13", "count-ctx-wakeups", "K", "graph/traversal.go", """	eg.Go(func() error {
+		for {
+			select {""", """	eg.Go(func() error {
+		for {
+			expect--
+			select {""", "counter decremented per loop turn, not per received vertex (TRV-8)"),
  ("C13", "unbuffered-handoff", "K", "graph/traversal.go", '''	nodeCh := make(chan *vertex[S], expect)''', '''	nodeCh := make(chan *vertex[S])''', "hand-off can block forever after an error (R5)"),
  ("C14", "no-deepcopy", "K", "types/project.go", '''func (p *Project) WithProfiles(profiles []string) (*Project, error) {
 	newProject := p.deepCopy()''', '''func (p *Project) WithProfiles(profiles []string) (*Project, error) {
